@@ -117,7 +117,7 @@ with simple_size (s : simple) : nat :=
                 match l with [] => 0%nat | x :: r => (arg_size x + go r)%nat end in
   match s with
   | SBits vs | SList vs | SDag vs | SCond vs => S (vals vs)
-  | SBang _ _ vs _ => S (S (vals vs))
+  | SBang _ _ vs _ => S (S (S (vals vs)))
   | SClassVal _ a _ => S (args a)
   | _ => 1%nat
   end
